@@ -314,6 +314,7 @@ func c08run(r *kernel.Run, seed uint64, controlled bool) {
 		time.Sleep(time.Second)
 		r.SimTime(time.Second)
 	}
+	s.wait()
 	if s.delivered > 0 {
 		r.Nontrivial()
 	}
